@@ -132,7 +132,8 @@ def repo_universe(maxsize: int, atoms=ATOMS, unary=UNARY, binary=BINARY, extra_m
         by[1] = by[1] + [P.MetaVar(0, e_fresh=(P.EVar(0),)), P.MetaVar(1, s_fresh=(P.SVar(0),)),
                          P.MetaVar(2, positive=(P.SVar(0),)), P.MetaVar(2, negative=(P.SVar(0),)),
                          P.Instantiate(P.Implies(P.MetaVar(0), P.MetaVar(1)), frozendict({0: P.EVar(0)})),
-                         P.Instantiate(P._and(P.MetaVar(0), P.MetaVar(2)), frozendict({0: P.MetaVar(1)}))]
+                         P.Instantiate(P._and(P.MetaVar(0), P.MetaVar(2)), frozendict({0: P.MetaVar(1)})),
+                         P.Instantiate(P._and(P.MetaVar(0), P.MetaVar(1)), frozendict({1: P.Symbol('s0')}))]
     def meta_headed(a):
         e = expand(a)
         return e[0] in ('mv', 'esub', 'ssub') and isinstance(a, (P.MetaVar, P.ESubst, P.SSubst))
